@@ -97,7 +97,34 @@ def dzone_events(rep, b, zones, rng, zmap, per_zone):
                 rep.disagree("dzone --%s: the two sides denote different instants" % d, {"zone": name, "t": t, "out": txt[:120]})
                 continue
             out.append([{"e": "Reset", "zone": label, "trs": [rank[x] for x in z.trs], "typ": list(z.typ), "ofs": list(z.ofs)}, ev])
-    rep.notes["dzone_runs"] = len(jobs)
+    # several zones in one process (names that are prefixes of each other, both orders): every row must follow its own zone file
+    rowpat = re.compile(r"^(\d{4}-\d\d-\d\dT\d\d:\d\d:\d\d)([+-])(\d\d):(\d\d)\t(\S+)$")
+    PAIRS = [("EST", "EST5EDT"), ("NZ", "NZ-CHAT"), ("GB", "GB-Eire"), ("MST", "MST7MDT"), ("Etc/GMT+1", "Etc/GMT+10"), ("Etc/GMT-1", "Etc/GMT-14"),
+             ("Asia/Kolkata", "Asia/Kathmandu")]
+    nmulti = 0
+    for pr in PAIRS:
+        if not all(os.path.exists("/usr/share/zoneinfo/" + zname) for zname in pr):
+            continue
+        for zs in (list(pr), list(reversed(pr)), [pr[0], pr[1], pr[0]]):
+            for t in (1590969600, 1577836800, 946684800):
+                iso = (E0 + datetime.timedelta(seconds=t)).strftime("%Y-%m-%dT%H:%M:%S")
+                p = core.run([dz] + zs + [iso], timeout=20)
+                nmulti += 1
+                rows = p.stdout.splitlines()
+                if len(rows) != len(zs):
+                    rep.disagree("dzone with several zones: %d rows for %d zones" % (len(rows), len(zs)), {"zones": zs, "out": p.stdout[:200]})
+                    continue
+                for zname, row in zip(zs, rows):
+                    m = rowpat.match(row)
+                    z = tzif.TZif("/usr/share/zoneinfo/" + zname)
+                    label = "dzone multi " + zname
+                    zmap[label] = z
+                    off = ((int(m.group(3)) * 3600 + int(m.group(4)) * 60) * (1 if m.group(2) == "+" else -1)) if m else 10 ** 6
+                    order = sorted(set(z.trs) | {t})
+                    rank = {v: i + 1 for i, v in enumerate(order)}
+                    out.append([{"e": "Reset", "zone": label, "trs": [rank[x] for x in z.trs], "typ": list(z.typ), "ofs": list(z.ofs)},
+                                {"e": "Local", "t": rank[t], "off": off, "T": str(t), "row": row[:80], "zones": " ".join(zs)}])
+    rep.notes["dzone_runs"] = len(jobs) + nmulti
     return out
 
 
